@@ -122,6 +122,43 @@ def run(chk: Check, repo: Repo) -> None:
         ok = len(guard) == 1 and len(raises) >= 1 and all(cfg.dominates(guard[0].id, x.id) for x in muts)
         chk.ob("guard-precedes-effects", fi.site(), ok, f"{q}: the membership guard dominates every effectful statement ('raises and changes nothing')", key=f"guard|{q}")
 
+    # (a') which addresses a device "uses": every address of every remote value, unfiltered
+    dga = repo.func("xknx.devices.device", "Device.group_addresses")
+    chk.unit(dga)
+    rets = [n for n in walk_local(dga.node) if isinstance(n, ast.Return)]
+    ok = False
+    detail = "single `return {ga for rv in self._iter_remote_values() for ga in rv.group_addresses()}` expected"
+    if len(rets) == 1 and isinstance(rets[0].value, (ast.SetComp, ast.GeneratorExp, ast.ListComp)) or (len(rets) == 1 and isinstance(rets[0].value, ast.Call) and rets[0].value.args and isinstance(rets[0].value.args[0], (ast.GeneratorExp, ast.SetComp, ast.ListComp))):
+        comp = rets[0].value if not isinstance(rets[0].value, ast.Call) else rets[0].value.args[0]
+        gens = comp.generators
+        ok = (len(gens) == 2 and not any(g.ifs for g in gens) and ast.unparse(gens[0].iter) == "self._iter_remote_values()" and isinstance(gens[1].iter, ast.Call) and method_name(gens[1].iter) == "group_addresses"
+              and ast.unparse(gens[1].iter.func.value) == ast.unparse(gens[0].target) and ast.unparse(comp.elt) == ast.unparse(gens[1].target))
+        detail = f"`{ast.unparse(rets[0].value)}`: all remote values, all their addresses, no filter"
+    chk.ob("device-addresses-unfiltered", dga.site(), ok, detail, key="device-addresses")
+    rga = repo.func("xknx.remote_value.remote_value", "RemoteValue.group_addresses")
+    chk.unit(rga)
+    cfg_r = CFG(rga.node)
+    for ga, gs, passive in product((None, Obj("GroupAddress", "active")), (None, Obj("GroupAddress", "state")), ((), (Obj("GroupAddress", "p1"),), (Obj("GroupAddress", "p1"), Obj("GroupAddress", "p2")))):
+        am_r = AbsMachine(cfg_r, m.exc if False else ExcTable(repo), lambda c, e: None)
+        paths = Explorer(cfg_r, repo, am_r.step).run(cfg_r.entry, [], {"#trace_yields": True, "self.group_address": ga, "self.group_address_state": gs, "self.passive_group_addresses": passive})
+        got = {tuple(sorted(p.env.get("trace", ()))) for p in paths}
+        want = {tuple(sorted(f"YIELD({x!r})" for x in ([ga] if ga else []) + ([gs] if gs else []) + list(passive)))}
+        chk.ob("remote-value-addresses-complete", rga.site(), got == want, f"active={ga!r} state={gs!r} passive={len(passive)}: yields {sorted(got)}; reference {sorted(want)}", key=f"rv-addresses|{ga is not None}|{gs is not None}|{len(passive)}")
+    overrides = [c.name for c in repo.subclasses(repo.cls("xknx.remote_value.remote_value", "RemoteValue"), strict=True) if "group_addresses" in c.methods]
+    dev_over = [c.name for c in repo.subclasses(repo.cls("xknx.devices.device", "Device"), strict=True) if "group_addresses" in c.methods]
+    chk.ob("group-addresses-not-overridden", rga.site(), not overrides, f"RemoteValue subclasses overriding group_addresses(): {overrides}", key="ga-overrides|rv")
+    for cname in dev_over:
+        c = repo.cls([m_ for m_ in repo.modules if cname in repo.modules[m_].classes][0], cname)
+        f_ = c.methods["group_addresses"]
+        chk.unit(f_)
+        rets_ = [n for n in walk_local(f_.node) if isinstance(n, ast.Return)]
+        def superset(e: ast.AST) -> bool:
+            if isinstance(e, ast.BinOp) and isinstance(e.op, ast.BitOr):
+                return superset(e.left) or superset(e.right)
+            return isinstance(e, ast.Call) and ast.unparse(e) == "super().group_addresses()"
+        okc = bool(rets_) and all(r_.value is not None and superset(r_.value) for r_ in rets_)
+        chk.ob("group-addresses-override-is-superset", f_.site(), okc, f"{cname}.group_addresses(): every return is super().group_addresses() or a union (|) containing it: {[ast.unparse(r_.value) for r_ in rets_]}", key=f"ga-overrides|{cname}")
+
     # (b) bounded histories over abstract containers
     gas = {"d1": ("g1", "g2"), "d2": ("g2", "g3"), "d3": ("g2",)}
     G = {g: Obj("GroupAddress", g) for g in ("g1", "g2", "g3", "g4")}
